@@ -142,7 +142,12 @@ func Bounded(w *vt.W, rng *rand.Rand, nm, maxLen int) {
 	for k := 0; k < nm; k++ {
 		subs := []int{-2, -1, 0, 1}
 		gaps := []int{-2, -1, 0}
-		sym := rng.Intn(2) == 0
+		if k%3 == 2 {
+			// strongly asymmetric gap scores: a letter against a gap costs differently in the two sequences
+			subs = []int{-3, -1, 1, 2}
+			gaps = []int{-4, -1, 0}
+		}
+		sym := rng.Intn(2) == 0 && k%3 != 2
 		m := matrix(5, func(i, j int) int {
 			if i == 0 && j == 0 {
 				return 0
@@ -244,7 +249,9 @@ func IllTyped(w *vt.W, rng *rand.Rand) {
 		}
 		return -1
 	})
-	mk := func(s string, al alphabet.Alphabet) *linear.Seq { return linear.NewSeq("s", alphabet.BytesToLetters([]byte(s)), al) }
+	mk := func(s string, al alphabet.Alphabet) *linear.Seq {
+		return linear.NewSeq("s", alphabet.BytesToLetters([]byte(s)), al)
+	}
 	mkq := func(s string, al alphabet.Alphabet) *linear.QSeq {
 		ql := make([]alphabet.QLetter, len(s))
 		for i := range ql {
